@@ -988,11 +988,11 @@ impl FromStr for Epoch {
                 details: "less than 7 characters",
             })
         } else {
-            let format = if &s[..2] == "JD" {
+            let format = if s.starts_with("JD") {
                 "JD"
-            } else if &s[..3] == "MJD" {
+            } else if s.starts_with("MJD") {
                 "MJD"
-            } else if &s[..3] == "SEC" {
+            } else if s.starts_with("SEC") {
                 "SEC"
             } else {
                 // Not a valid format, hopefully it's a Gregorian date.
